@@ -81,12 +81,13 @@ func rulesIndex(c *Ctx) {
 			d := derived(seeds, flowOpts{throughCalls: true})
 			i := 0
 			eachCall(f, func(call ssa.CallInstruction) {
-				if calleeFull(call) != repoMod+"/stores/operation.ParseOperation" {
+				ent := c.parseCallEntry(call)
+				if ent == nil {
 					return
 				}
 				cons := fmt.Sprintf("%s→ParseOperation#%d", fk, i)
 				i++
-				if a := call.Common().Args; len(a) == 1 && d[a[0]] {
+				if d[ent] {
 					c.ok("I1", cons, call.Pos(), "the parsed entry is taken from Values()")
 				} else {
 					c.bad("I1", cons, call.Pos(), "an operation is parsed from an entry that does not come from the log's total order (Values)")
@@ -113,6 +114,28 @@ func rulesIndex(c *Ctx) {
 
 	c.ruleI3()
 	c.ruleI5()
+}
+
+// parseCallEntry: the call decodes an operation from a log entry (its first result is the
+// operation package's Operation interface and one argument is an entry); returns that entry.
+func (c *Ctx) parseCallEntry(call ssa.CallInstruction) ssa.Value {
+	if calleeFull(call) == repoMod+"/stores/operation.ParseOperation" && len(call.Common().Args) == 1 {
+		return call.Common().Args[0]
+	}
+	res := call.Common().Signature().Results()
+	if res.Len() == 0 || !strings.HasSuffix(typeStr(res.At(0).Type()), "stores/operation.Operation") {
+		return nil
+	}
+	it := c.lookupIface(ifaceEntry)
+	if it == nil {
+		return nil
+	}
+	for _, a := range argsOf(call) {
+		if types.Implements(a.Type(), it) {
+			return a
+		}
+	}
+	return nil
 }
 
 // ---------------------------------------------------------------------------
@@ -225,10 +248,10 @@ func (c *Ctx) ruleI2(f *ssa.Function) {
 	dir, dirKnown := 0, false
 	var scanPos token.Pos
 	eachCall(f, func(call ssa.CallInstruction) {
-		if calleeFull(call) != repoMod+"/stores/operation.ParseOperation" || len(call.Common().Args) != 1 {
+		a := c.parseCallEntry(call)
+		if a == nil {
 			return
 		}
-		a := call.Common().Args[0]
 		scanPos = call.Pos()
 		if u, ok := a.(*ssa.UnOp); ok && u.Op == token.MUL {
 			if ia, ok := u.X.(*ssa.IndexAddr); ok {
@@ -513,6 +536,24 @@ func (c *Ctx) i3Effect(f *ssa.Function, cmp *ssa.BinOp, op string, isDelete bool
 							other = true
 						}
 					}
+					// the effect may sit in a small method of the same index (i.set(k, v) / i.unset(k))
+					if g := x.Call.StaticCallee(); g != nil && g.Blocks != nil && g.Signature.Recv() != nil && len(x.Call.Args) > 0 && isRecv(f, x.Call.Args[0]) {
+						st, del := recvMapEffects(g)
+						if st && !del {
+							if !wantDelete {
+								found = true
+							} else {
+								other = true
+							}
+						}
+						if del && !st {
+							if wantDelete {
+								found = true
+							} else {
+								other = true
+							}
+						}
+					}
 				}
 			}
 		}
@@ -524,6 +565,23 @@ func (c *Ctx) i3Effect(f *ssa.Function, cmp *ssa.BinOp, op string, isDelete bool
 			c.bad("I3", cons, cmp.Pos(), fmt.Sprintf("branch for opcode %q does not %s the index map", op, want))
 		}
 	}
+}
+
+// recvMapEffects: the method stores into / deletes from a map field of its receiver.
+func recvMapEffects(g *ssa.Function) (stores, deletes bool) {
+	eachInstr(g, func(in ssa.Instruction) {
+		switch x := in.(type) {
+		case *ssa.MapUpdate:
+			if isRecvMap(g, x.Map) {
+				stores = true
+			}
+		case *ssa.Call:
+			if bi, ok := x.Call.Value.(*ssa.Builtin); ok && bi.Name() == "delete" && len(x.Call.Args) == 2 && isRecvMap(g, x.Call.Args[0]) {
+				deletes = true
+			}
+		}
+	})
+	return
 }
 
 func isRecvMap(f *ssa.Function, m ssa.Value) bool {
@@ -682,9 +740,11 @@ func freshValue(v ssa.Value, depth int) bool {
 			for _, b := range f.Blocks {
 				for _, in := range b.Instrs {
 					if r, ok := in.(*ssa.Return); ok {
-						for _, rv := range r.Results {
-							if isSliceLike(rv.Type()) && !isNilConst(rv) && !freshValue(strip(rv), depth+1) {
-								return false
+						for _, rv0 := range r.Results {
+							for _, rv := range resolveSpill(rv0) {
+								if isSliceLike(rv.Type()) && !isNilConst(rv) && !freshValue(strip(rv), depth+1) {
+									return false
+								}
 							}
 						}
 					}
@@ -700,10 +760,76 @@ func freshValue(v ssa.Value, depth int) bool {
 			}
 		}
 		return true
+	case *ssa.Extract:
+		return freshValue(x.Tuple, depth+1)
 	case *ssa.Slice:
 		return freshValue(x.X, depth+1)
 	}
 	return false
+}
+
+// listingOrigin: the call's result is (derived from) a listing handed out by an index — the
+// interface Get, a method of an index implementation called directly, or a repo helper
+// returning one of those. providers are the direct index methods involved (other than the
+// interface Get, which is resolved through the installed types).
+func (c *Ctx) listingOrigin(call ssa.CallInstruction, idxGet func(ssa.CallInstruction) bool, depth int) ([]*ssa.Function, bool) {
+	if idxGet(call) {
+		return nil, true
+	}
+	g := call.Common().StaticCallee()
+	if g == nil || g.Blocks == nil || g.Pkg == nil || !inRepo(g.Pkg.Pkg) || depth > 2 {
+		return nil, false
+	}
+	returnsSlice := false
+	res := g.Signature.Results()
+	for i := 0; i < res.Len(); i++ {
+		switch res.At(i).Type().Underlying().(type) {
+		case *types.Slice, *types.Interface:
+			returnsSlice = true
+		}
+	}
+	if !returnsSlice {
+		return nil, false
+	}
+	if rn := recvNamed(g); rn != nil {
+		for _, n := range c.indexImpls() {
+			if n.Obj() == rn.Obj() {
+				return []*ssa.Function{g}, true
+			}
+		}
+	}
+	var provs []*ssa.Function
+	found := false
+	eachCall(g, func(inner ssa.CallInstruction) {
+		if inner.Value() == nil {
+			return
+		}
+		ps, ok := c.listingOrigin(inner, idxGet, depth+1)
+		if !ok {
+			return
+		}
+		d := derived([]ssa.Value{inner.Value()}, flowOpts{})
+		flows := false
+		eachInstr(g, func(in ssa.Instruction) {
+			if r, ok := in.(*ssa.Return); ok {
+				for _, v := range r.Results {
+					for _, rv := range resolveSpill(v) {
+						if d[rv] {
+							flows = true
+						}
+					}
+					if d[v] {
+						flows = true
+					}
+				}
+			}
+		})
+		if flows {
+			found = true
+			provs = append(provs, ps...)
+		}
+	})
+	return provs, found
 }
 
 func (c *Ctx) ruleI5() {
@@ -714,11 +840,17 @@ func (c *Ctx) ruleI5() {
 		if f.Pkg == nil || !strings.HasPrefix(f.Pkg.Pkg.Path(), repoMod+"/stores/") {
 			continue
 		}
-		// values obtained from Index().Get(...)
+		// values obtained from Index().Get(...), directly or through a repo helper that returns
+		// what the index (its Get, or another method of an index type) handed out
 		var seeds []ssa.Value
+		var providers []*ssa.Function
 		eachCall(f, func(call ssa.CallInstruction) {
-			if idxGet(call) && call.Value() != nil {
+			if call.Value() == nil {
+				return
+			}
+			if ps, ok := c.listingOrigin(call, idxGet, 0); ok {
 				seeds = append(seeds, call.Value())
+				providers = append(providers, ps...)
 			}
 		})
 		if len(seeds) == 0 {
@@ -780,6 +912,18 @@ func (c *Ctx) ruleI5() {
 				okAll = false
 				c.bad("I5", fk+"#listing-mutated:"+relType(t), muts[0].in.Pos(),
 					fmt.Sprintf("the listing returned by %s.Get is shared storage (returned at %s) and is reordered in place here: the next query observes a corrupted order", relType(t), c.pos(sh[0].Pos())))
+			}
+		}
+		seenP := map[*ssa.Function]bool{}
+		for _, g := range providers {
+			if g == nil || seenP[g] {
+				continue
+			}
+			seenP[g] = true
+			if sh := c.sharedReturns(g); len(sh) > 0 {
+				okAll = false
+				c.bad("I5", fk+"#listing-mutated:"+fnKey(g), muts[0].in.Pos(),
+					fmt.Sprintf("the listing returned by %s is shared storage (returned at %s) and is reordered in place here: the next query observes a corrupted order", fnKey(g), c.pos(sh[0].Pos())))
 			}
 		}
 		if okAll {
